@@ -28,6 +28,9 @@ class RealSteps:
         self.force_progress = False
         self.reader = threading.get_ident()
         self.rmtree_reverse = False
+        self.buffered = False
+        self.global_order = None   # writers of the SAME file: the global order of their steps (writer indices)
+        self._gptr = 0
 
     # ---------------------------------------------------------------- stepping
     def _step(self, path):
@@ -62,6 +65,12 @@ class RealSteps:
 
     def dump(self, obj, f, *a, **k):
         data = pickle.dumps(obj)
+        if self.buffered:
+            f.pending = data           # reaches the file when the handle is closed
+            return
+        self._write_chunks(f, data)
+
+    def _write_chunks(self, f, data):
         n = len(data)
         cuts = [n * i // self.K for i in range(self.K + 1)]
         for i in range(self.K):
@@ -93,6 +102,12 @@ class RealSteps:
         if self.deltas is None or threading.get_ident() != self.reader:
             return
         owners = [w for w in self.writers.values() if not w["finished"] and self._touches(w, path)]
+        if self.global_order is not None and owners:
+            lo = 1 if self.force_progress else 0
+            d = self.deltas.pop(0) if self.deltas else 10 ** 6
+            self._advance_global(path, max(int(d), lo))
+            self.force_progress = False
+            return
         for w in owners:
             lo = 1 if self.force_progress else 0
             d = self.deltas.pop(0) if self.deltas else 10 ** 6
@@ -114,6 +129,44 @@ class RealSteps:
                     self.lock.notify_all()
                 self.lock.wait(timeout=0.05)
 
+    def _advance_steps(self, w, n):
+        """let writer w perform n more steps (whatever path they touch)"""
+        target = len(w["done_paths"]) + n
+        with self.lock:
+            while not w["finished"] and len(w["done_paths"]) < target:
+                if w["pending"] is not None and w["permits"] == 0:
+                    w["permits"] += 1
+                    self.lock.notify_all()
+                self.lock.wait(timeout=0.05)
+
+    def _advance_global(self, path, d):
+        """run the writers in the prescribed global step order until `path` changed d more times"""
+        ws = sorted(self.writers.values(), key=lambda w: w["index"])
+
+        def changes():
+            return sum(w["done_paths"].count(path) for w in ws)
+
+        target = changes() + d
+        while changes() < target and any(not w["finished"] for w in ws):
+            while self._gptr < len(self.global_order) and ws[self.global_order[self._gptr]]["finished"]:
+                self._gptr += 1
+            if self._gptr < len(self.global_order):
+                w = ws[self.global_order[self._gptr]]
+                self._gptr += 1
+            else:
+                w = next(x for x in ws if not x["finished"])
+            before = len(w["done_paths"])
+            with self.lock:
+                # wait until the writer is parked at its next step (or finished), then let it do one step
+                while not w["finished"] and w["pending"] is None:
+                    self.lock.wait(timeout=0.05)
+                if w["finished"]:
+                    continue
+                w["permits"] += 1
+                self.lock.notify_all()
+                while not w["finished"] and len(w["done_paths"]) == before:
+                    self.lock.wait(timeout=0.05)
+
     def finish_all(self):
         for w in self.writers.values():
             with self.lock:
@@ -123,7 +176,9 @@ class RealSteps:
             w["thread"].join()
 
     def start_writer(self, target, paths=None):
-        w = {"permits": 0, "pending": None, "done_paths": [], "finished": False, "paths": paths, "error": None}
+        w = {"permits": 0, "pending": None, "done_paths": [], "finished": False, "paths": paths, "error": None,
+             "index": getattr(self, "_nstarted", 0)}
+        self._nstarted = getattr(self, "_nstarted", 0) + 1
         ready = threading.Event()
 
         def run():
@@ -155,8 +210,24 @@ class RealSteps:
             def replace(self, a, b):
                 rs.replace(a, b)
 
+            rename = replace
+
             def remove(self, p):
                 rs.remove(p)
+
+            unlink = remove
+
+            def listdir(self, d):
+                # a directory listing observes every file of every writer in that directory
+                if rs.deltas is not None and threading.get_ident() == rs.reader:
+                    for w in sorted(rs.writers.values(), key=lambda x: x["index"]):
+                        if w["finished"]:
+                            continue
+                        n = rs.deltas.pop(0) if rs.deltas else 10 ** 6
+                        n = max(int(n), 1 if rs.force_progress else 0)
+                        rs._advance_steps(w, n)
+                    rs.force_progress = False
+                return os.listdir(d)
 
             @property
             def path(self):
@@ -237,9 +308,13 @@ def install_farming(rs, env, fm, mg):
             rs._step(p)
             os.remove(p)
 
+        unlink = remove
+
         def replace(self, a, b):
             rs._step(b)
             os.replace(a, b)
+
+        rename = replace
 
     def wrap_save(real, namer):
         def save(obj, name, *a, **k):
@@ -269,6 +344,14 @@ class _WFile:
         return self
 
     def __exit__(self, *a):
+        pending = getattr(self, "pending", None)
+        if pending is not None:
+            self.pending = None
+            try:
+                self.rs._write_chunks(self, pending)
+            finally:
+                self.raw.close()
+            return False
         self.raw.close()
         return False
 
